@@ -303,13 +303,14 @@ func equalInts(a, b []int) bool {
 
 // WTree is a statement tree as the spec writes it and as the walker reads it.
 type WTree struct {
-	Kw   []int   `json:"kw"`
-	Arg  []int   `json:"arg"`
-	ArgJ *bool   `json:"argJ,omitempty"` // spec side: the argument is judged (absent = judged)
-	Line int     `json:"line"`
-	Col  int     `json:"col"`
-	ColJ bool    `json:"colJ"` // spec side: the column is judged (ASCII line prefix)
-	Subs []WTree `json:"subs"`
+	Kw    []int   `json:"kw"`
+	KwAlt []int   `json:"kwAlt,omitempty"` // spec side: the other acceptable reading of the keyword (first word after a byte order mark)
+	Arg   []int   `json:"arg"`
+	ArgJ  *bool   `json:"argJ,omitempty"` // spec side: the argument is judged (absent = judged)
+	Line  int     `json:"line"`
+	Col   int     `json:"col"`
+	ColJ  bool    `json:"colJ"` // spec side: the column is judged (ASCII line prefix)
+	Subs  []WTree `json:"subs"`
 }
 
 type vec10 struct {
@@ -348,7 +349,7 @@ func diffTree(want, got *WTree, path string) map[string]interface{} {
 	d := func(field string, w, g interface{}) map[string]interface{} {
 		return map[string]interface{}{"path": path, "field": field, "want": w, "got": g}
 	}
-	if !equalInts(want.Kw, got.Kw) {
+	if !equalInts(want.Kw, got.Kw) && !(len(want.KwAlt) > 0 && equalInts(want.KwAlt, got.Kw)) {
 		return d("keyword", FromCPs(want.Kw), FromCPs(got.Kw))
 	}
 	if (want.ArgJ == nil || *want.ArgJ) && !equalInts(want.Arg, got.Arg) {
@@ -419,7 +420,7 @@ func gen8(n int, seed int64, out string) error {
 		return err
 	}
 	defer f.Close()
-	words := []string{"alpha", "b", "", "  two  words", "x;y{z}", "//nc", "/*nc*/", "it's", "é€", "tab\there", `\"q\"`, `\\`, "a+b", "'", "end."}
+	words := []string{"alpha", "b", "", "  two  words", "x;y{z}", "//nc", "/*nc*/", "it's", "é€", "tab\there", `\"q\"`, `\\`, "a+b", "'", "end.", "no\u00a0break", "\u2028", "\f"}
 	for i := 0; i < n; i++ {
 		var sb strings.Builder
 		sb.WriteString("module m {\n  namespace \"urn:m\";\n  prefix m;\n")
@@ -447,8 +448,11 @@ func gen8(n int, seed int64, out string) error {
 			sb.WriteString("\"")
 			for l, nl := 0, 1+rnd.Intn(8); l < nl; l++ {
 				if l > 0 {
-					sb.WriteString([]string{"", " ", "\t ", "  "}[rnd.Intn(4)] + eol)
-					switch rnd.Intn(4) {
+					// (blanks of Unicode that are ordinary characters to YANG: inputs like everything here, the spec reads them)
+					sb.WriteString([]string{"", " ", "\t ", "  ", "\u00a0", " \u00a0", "\f ", "\u3000\t", "\v", "\u2028 "}[rnd.Intn(10)] + eol)
+					switch rnd.Intn(5) {
+					case 4:
+						sb.WriteString(strings.Repeat(" ", rnd.Intn(20)) + []string{"\u00a0", "\f", "\u3000", "\u2028", "\v", "\ufeff"}[rnd.Intn(6)] + strings.Repeat(" ", rnd.Intn(3)))
 					case 0:
 						sb.WriteString(strings.Repeat("\t", rnd.Intn(3)) + strings.Repeat(" ", rnd.Intn(5)))
 					case 1:
